@@ -166,11 +166,16 @@ def diff_items(tier):
         flows3 = flows3[::4]
     for fl in flows3:
         for lay in ("POOL2", "MIX"):
-            for var in (0, 1):
+            for var in (0, 1, 2, 3):
                 sp = F.with_teams(fl, lay)
                 sp = dict(sp, tasks=[dict(t) for t in sp["tasks"]])
                 if var == 1:
                     sp["tasks"][2]["auto"] = True
+                elif var == 2:
+                    sp["tasks"][0]["auto"] = True  # an automatic task as a predecessor (its start opens SS / SF gates)
+                elif var == 3:
+                    sp["tasks"][1]["auto"] = True
+                    sp["tasks"][1]["unit"] = 0.5
                 for rule in ("TSLACK", "FIFO"):
                     out.append((sp, {"rule": rule, "max_time": 40}, 2 if tier == "quick" else 3, (15,)))
     return out
